@@ -1859,6 +1859,73 @@ func rootOf(fn *ssa.Function) *ssa.Function {
 // peer finishes).
 func c05DoneBeforeFinalWrites(c *core.Ctx, fns []*ssa.Function) {
 	n := 0
+	// the signal itself is real for every kind of method: what the in-process server stream keeps as its done signal
+	// is, on every path, the CancelFunc of a context made with context.WithCancel, and the context the client stream
+	// watches while it sends is that call's context — not a no-op / nil for the kinds of method "that send only once"
+	// (a raw NewStream client may send as often as it likes on any of them)
+	nSig := 0
+	for _, fn := range fns {
+		if !core.PkgIs(fn, "inprocgrpc") {
+			continue
+		}
+		core.Instrs(fn, func(in ssa.Instruction) {
+			st, ok := in.(*ssa.Store)
+			if !ok {
+				return
+			}
+			base, fld, isF := core.FieldOf(st.Addr)
+			if !isF || core.TypeStr(st.Val.Type()) != "context.CancelFunc" || !strings.Contains(core.NamedOf(base.Type()), "ServerStream") {
+				return
+			}
+			nSig++
+			var wc *ssa.Call
+			real := core.AllOrigins(st.Val, func(o ssa.Value) bool {
+				cr, idx, isC := core.CallResult(core.ResolveFree(o))
+				if isC && idx == 1 && core.InfoOf(&cr.Call).Is("context.WithCancel") {
+					wc = cr
+					return true
+				}
+				return false
+			})
+			key := core.FuncName(fn) + ":" + fld + ":done-signal-is-a-real-cancel"
+			c.Check(real, key, st.Pos(), "the server stream's done signal is the CancelFunc of a context.WithCancel on every path", "the server stream's done signal can be something other than the CancelFunc of a WithCancel context (a no-op for some kinds of method): when the handler of such a method finishes, a client still sending is not released")
+			if !real || wc == nil {
+				return
+			}
+			// the client stream watches that context
+			watched := false
+			root := fn
+			for k := 0; k < 6; k++ {
+				if root.Parent() != nil {
+					root = root.Parent()
+				} else if site := core.InlineSite[root]; site != nil {
+					root = site.Parent()
+				} else {
+					break
+				}
+			}
+			core.InstrsDeep(root, func(_ *ssa.Function, x ssa.Instruction) {
+				s2, ok := x.(*ssa.Store)
+				if !ok || core.TypeStr(s2.Val.Type()) != "context.Context" {
+					return
+				}
+				b2, _, isF2 := core.FieldOf(s2.Addr)
+				if !isF2 || !strings.Contains(core.NamedOf(b2.Type()), "ClientStream") {
+					return
+				}
+				if core.AllOrigins(s2.Val, func(o ssa.Value) bool {
+					cr, idx, isC := core.CallResult(core.ResolveFree(o))
+					return isC && idx == 0 && cr == wc
+				}) {
+					watched = true
+				}
+			})
+			c.Check(watched, key+":watched-by-the-client-stream", st.Pos(), "a context field of the client stream holds that very context on every path", "no context field of the client stream holds (on every path) the context that the server stream's done signal cancels: a blocked client send does not see the handler finish")
+		})
+	}
+	if nSig == 0 {
+		c.Fail("inprocgrpc:server-done-signal", token.NoPos, "ANCHOR-MISSING: no CancelFunc stored into the in-process server stream")
+	}
 	for _, fn := range fns {
 		if core.RecvName(fn) == "" || fn.Parent() != nil {
 			continue
